@@ -174,6 +174,7 @@ pub struct Counters {
     pub alias_checks: u64,
     pub adaptor_probes: u64,
     pub adaptor_exact: u64,
+    pub consumer_probes: u64,
     pub twin_ops: u64,
     pub ledger_checks: u64,
     pub by_which: BTreeMap<String, u64>,
@@ -622,6 +623,102 @@ pub fn adaptor_probes<Q: QueueApi>(r: &Recipe, k: usize, cn: &mut Counters, sink
     }
 }
 
+/// Consumers that reach the specialisable iterator methods (nth, nth_back, fold, rfold, try_fold,
+/// last, and the len-based back ends of take/skip/step_by): the output of every consumer must be
+/// what the same std adaptor yields over the reference sequence obtained with plain `next()`.
+pub fn consumer_probes<Q: QueueApi>(r: &Recipe, k: usize, cn: &mut Counters, sink: &mut Sink) {
+    let kind = Q::KIND;
+    let n = build::<Q>(r).m.len();
+    let judge = |label: &str, how: usize, props: Vec<&'static str>, exact_ids: bool, reference: &Vec<(u32, i64)>, res: std::thread::Result<Option<Vec<(u32, i64)>>>, cn: &mut Counters, sink: &mut Sink| {
+        let cname = CONSUMERS[how];
+        let case = serde_json::json!({"mode":"iters","consumer":how,"iterator":label,"k":k,"kind":kind,"recipe":r});
+        match res {
+            Ok(None) => {}
+            Ok(Some(out)) => {
+                cn.consumer_probes += 1;
+                let expected: Vec<(u32, i64)> = crate::consume_de!(reference.clone().into_iter(), how, k).unwrap();
+                let same = if exact_ids {
+                    out == expected
+                } else {
+                    // among equal priorities any order is allowed: compare priorities, and require distinct stored items
+                    let mut ids: Vec<u32> = out.iter().map(|x| x.0).collect();
+                    ids.sort_unstable();
+                    let l = ids.len();
+                    ids.dedup();
+                    out.iter().map(|x| x.1).collect::<Vec<_>>() == expected.iter().map(|x| x.1).collect::<Vec<_>>() && ids.len() == l && out.iter().all(|x| reference.contains(x))
+                };
+                if !same {
+                    let v = Viol { monitor: "M-CONSUMER", op: format!("{}.{}", label, cname), kind: kind.name(), detail: format!("{}.{} with k={} on {} elements yields {:?} but plain next() implies {:?}", label, cname, k, n, out, expected), props };
+                    sink.viol(&v.props, &v.sig(), &v.detail, case);
+                }
+            }
+            Err(_) => {
+                cn.consumer_probes += 1;
+                let msg = take_last_panic().unwrap_or_default();
+                let mut p2 = props.clone();
+                p2.push("C04");
+                let v = Viol { monitor: "M-CONSUMER", op: format!("{}.{}", label, cname), kind: kind.name(), detail: format!("panicked: {}", msg), props: p2 };
+                sink.viol(&v.props, &v.sig(), &v.detail, case);
+            }
+        }
+    };
+    fn ids<'a>(v: Vec<(&'a Item, &'a Prio)>) -> Vec<(u32, i64)> {
+        v.iter().map(|(i, p)| (i.id(), p.ord)).collect()
+    }
+    fn ids_owned(v: Vec<(Item, Prio)>) -> Vec<(u32, i64)> {
+        v.iter().map(|(i, p)| (i.id(), p.ord)).collect()
+    }
+    // reference sequences through plain next()
+    let ref_iter: Vec<(u32, i64)> = {
+        let st = build::<Q>(r);
+        let mut it = st.q.iter();
+        let mut v = Vec::new();
+        while let Some((i, p)) = it.next() {
+            v.push((i.id(), p.ord));
+        }
+        v
+    };
+    let ref_sorted: Vec<(u32, i64)> = {
+        let st = build::<Q>(r);
+        let mut it = st.q.into_sorted_iter_q();
+        let mut v = Vec::new();
+        while let Some((i, p)) = it.next() {
+            v.push((i.id(), p.ord));
+        }
+        v
+    };
+    for how in 0..CONSUMERS.len() {
+        let res = catch_unwind(AssertUnwindSafe(|| {
+            let st = build::<Q>(r);
+            let r: Option<Vec<(&Item, &Prio)>> = crate::consume_de!(st.q.iter(), how, k);
+            r.map(ids)
+        }));
+        judge("iter()", how, vec!["C13"], true, &ref_iter, res, cn, sink);
+        let res = catch_unwind(AssertUnwindSafe(|| {
+            let st = build::<Q>(r);
+            let r: Option<Vec<(Item, Prio)>> = crate::consume_de!(st.q.into_iter_q(), how, k);
+            r.map(ids_owned)
+        }));
+        judge("into_iter()", how, vec!["C13"], true, &ref_iter, res, cn, sink);
+        let res = catch_unwind(AssertUnwindSafe(|| {
+            let mut st = build::<Q>(r);
+            let r: Option<Vec<(Item, Prio)>> = crate::consume_de!(st.q.drain(), how, k);
+            r.map(ids_owned)
+        }));
+        judge("drain()", how, vec!["C13", "C16"], true, &ref_iter, res, cn, sink);
+        let res = catch_unwind(AssertUnwindSafe(|| {
+            let st = build::<Q>(r);
+            Q::so_consume(st.q, how, k)
+        }));
+        judge("into_sorted_iter()", how, vec!["C13", "C06"], false, &ref_sorted, res, cn, sink);
+        let res = catch_unwind(AssertUnwindSafe(|| {
+            let mut st = build::<Q>(r);
+            Q::im_consume(&mut st.q, how, k)
+        }));
+        judge("iter_mut()", how, vec!["C09", "C08"], true, &ref_iter, res, cn, sink);
+    }
+}
+
 fn all_scripts(max_len: usize) -> Vec<String> {
     let mut v = vec![String::new()];
     let mut cur = vec![String::new()];
@@ -653,7 +750,8 @@ fn exec_case<Q: QueueApi>(c: &Case, cn: &mut Counters) -> Vec<Viol> {
     run_case::<Q>(c, cn)
 }
 fn exec_adaptors<Q: QueueApi>(r: &Recipe, k: usize, cn: &mut Counters, sink: &mut Sink) {
-    adaptor_probes::<Q>(r, k, cn, sink)
+    adaptor_probes::<Q>(r, k, cn, sink);
+    consumer_probes::<Q>(r, k, cn, sink)
 }
 
 fn emit(sink: &mut Sink, c: &Case, vs: Vec<Viol>) {
@@ -774,16 +872,20 @@ pub fn mode_iters(a: &Args) -> i32 {
         let writes: Vec<Option<i64>> = if is_mut { (0..len).map(|_| if rng.chance(1, 2) { Some(rng.range(0, 1000)) } else { None }).collect() } else { vec![] };
         let leak = !noleak && (w == Which::Drain || is_mut) && rng.chance(1, 6);
         let after = if w == Which::Drain { gen_after(&mut rng, 12) } else { vec![] };
+        if do_adaptors && i % 8 == 0 {
+            let k = rng.below(n + 3);
+            crate::dispatch!(kind, hasher.as_str(), exec_adaptors, &rec, k, &mut cn, &mut sink);
+        }
         let c = Case { kind, which: w, recipe: rec, script, writes, hold: hold || rng.chance(1, 2), leak, after };
         run(c, &mut cn, &mut sink, &mut journal, &mut samples);
     }
     sink.finish_counts(
         "iters",
-        cn.cases + cn.adaptor_probes,
+        cn.cases + cn.adaptor_probes + cn.consumer_probes,
         cn.distinct.len() as u64,
         serde_json::json!({
             "iter_cases": cn.cases, "iter_calls": cn.calls, "len_checks": cn.len_checks, "size_hint_checks": cn.hint_checks,
-            "alias_checks": cn.alias_checks, "adaptor_probes": cn.adaptor_probes, "adaptor_probes_on_exact_types": cn.adaptor_exact,
+            "alias_checks": cn.alias_checks, "adaptor_probes": cn.adaptor_probes, "adaptor_probes_on_exact_types": cn.adaptor_exact, "consumer_probes": cn.consumer_probes,
             "twin_ops": cn.twin_ops, "ledger_checks": cn.ledger_checks, "cases_by_iterator": cn.by_which,
             "samples": samples,
         }),
@@ -799,7 +901,7 @@ pub fn replay(rp: &serde_json::Value, _a: &Args, sink: &mut Sink, journal: &mut 
         journal.line(&format!("CASE {}", serde_json::json!({"mode":"iters","what":format!("{:?}", c.which),"props": which_props(c.which).into_iter().chain(["C04"]).collect::<Vec<_>>(),"case":c})));
         let vs = crate::dispatch!(c.kind, "fixed", exec_case, &c, &mut cn);
         emit(sink, &c, vs);
-    } else if rp.get("adaptor").is_some() {
+    } else if rp.get("adaptor").is_some() || rp.get("consumer").is_some() {
         let r: Recipe = serde_json::from_value(rp["recipe"].clone()).expect("recipe");
         let kind: Kind = serde_json::from_value(rp["kind"].clone()).expect("kind");
         let k = rp["k"].as_u64().unwrap_or(1) as usize;
